@@ -409,6 +409,35 @@ fn verif_harness_ext(toks: &[&str]) -> String {
                 if msgs.is_empty() { "-".to_owned() } else { msgs.join(";") },
                 if flushed.is_empty() { "-".to_owned() } else { flushed.join(";") })
         }
+        // readi16 <hex,hex,...>: the expression samedec's main.rs builds its sample iterator from,
+        //   std::iter::from_fn(|| Some(inbuf.read_i16::<NativeEndian>().ok()?))  over  io::BufReader::new(source),
+        // on a source whose successive read() calls return exactly the given chunks; every sample up to the first None,
+        // then two further calls (which must also yield None)
+        ["readi16", chunks] => {
+            use byteorder::{NativeEndian, ReadBytesExt};
+            struct Chunked(std::collections::VecDeque<Vec<u8>>);
+            impl std::io::Read for Chunked {
+                fn read(&mut self, buf: &mut [u8]) -> std::io::Result<usize> {
+                    match self.0.pop_front() {
+                        None => Ok(0),
+                        Some(c) => {
+                            let n = usize::min(buf.len(), c.len());
+                            buf[..n].copy_from_slice(&c[..n]);
+                            if n < c.len() { self.0.push_front(c[n..].to_vec()); }
+                            Ok(n)
+                        }
+                    }
+                }
+            }
+            let cs: std::collections::VecDeque<Vec<u8>> =
+                if *chunks == "-" { Default::default() } else { chunks.split(',').map(bytes_of_hex).collect() };
+            let mut inbuf: Box<dyn std::io::BufRead> = Box::new(std::io::BufReader::new(Chunked(cs)));
+            let mut it = std::iter::from_fn(|| Some(inbuf.read_i16::<NativeEndian>().ok()?));
+            let mut out: Vec<String> = Vec::new();
+            while let Some(s) = it.next() { out.push(format!("{}", s)); }
+            let again = it.next().is_some() || it.next().is_some();
+            if again { "NOT-FUSED".to_owned() } else if out.is_empty() { "-".to_owned() } else { out.join(",") }
+        }
         // cfgcalls <rate> <call;call;...>: apply builder calls in the given order, print the builder's getters as
         // order-preserving integer keys of the f32 values, build, and print the constructed window lengths
         ["cfgcalls", rate, calls] => {
